@@ -87,6 +87,22 @@ PROPS = {
         "assumptions": ["BooksQ: BankSane (LockedCoins never negative: SDK contract), EntQ, and governance has not changed the enterprise denomination (known finding C14/denom-change)",
                         "genesis: bank-lite well-formed, no vesting module accounts, empty enterprise escrow"],
     },
+    "C17": {
+        "chain": [chain("query", 24, 20, 300, 35), chain("fees", 8, 20, 100, 30)],
+        "corpus": ["witness", "regress", "known"],
+        "relevant": rel_kinds(("I", "K", "B", "E", "Q", "D ent.total", "D bank.supply", "D ent.params"), lambda k: True),
+        "level_text": "Proof: c17_supply_of (native denomination: bank supply minus total locked; any other: bank supply unchanged), c17_locked_plus_unlocked_eq_total (in every state of every run 0 <= locked <= supply, the subtraction behind TotalUnlocked / SupplyOf succeeds, unlocked >= 0 and unlocked + locked = supply; uses the books invariant of C04 and sum-of-balances = supply of C02), c17_total_supply_pages (paging through the listing returns every denomination exactly once), c17_enterprise_routes_win (route registration order regenerated from app.go).",
+        "level_note": ENT_NOTE + " The supply queries are modelled in Model/Query.lean (incl. the Uint64() conversions of EnterpriseSupply and Coin.Sub panics, answered as query errors) and compared with the real gRPC query servers reached through ABCI Query on generated states with several denominations and every page request shape; figures are environment-adjusted on both sides (validator, staking pools and gov account are outside the model).",
+        "assumptions": ["BooksQ as in C04", "genesis bank balanced (sum of balances = supply)", "UTF-8 encoding of denominations is injective (for the listing theorem)"],
+    },
+    "C20": {
+        "chain": [chain("query", 32, 20, 400, 35)],
+        "corpus": ["witness", "regress", "known"],
+        "relevant": rel_kinds(("I", "K", "B", "E", "Q"), lambda k: True),
+        "level_text": "Proof: c20_pages_partition_by_key (for every store section, filter and limit 1 <= L < 2^64, following next_key from a first request without key returns every matching entry exactly once, in store order, and nothing else: unbounded in the number of entries and pages), c20_pages_partition_by_offset (+ drop_take_partition), c20_key_and_offset_rejected, c20_purchase_orders_walk (instance for EnterpriseUndPurchaseOrders in every reachable state), c20_listed_*_eq_point_query, c20_queries_do_not_modify_state.",
+        "level_note": "Theorems are about Paginate.filtered, the transcription of the SDK's FilteredPaginate / GenericFilteredPaginate / Paginate (types/query, v0.47.13: trusted transcription, validated by the correspondence), and about the list queries of the four modules built on it (Model/Query.lean). The tie is differential: every list query of the real app through ABCI Query (gRPC route) with generated page requests - complete key walks, offset walks, count_total, reverse, key+offset, absent and upper-case filters - vs. the compiled model, after every block; the harness also compares every listed item with its point query (pm must be 0). Store iteration order (ascending bytes) is the IAVL contract and is assumed; reverse iteration is covered by the correspondence only.",
+        "assumptions": ["store iteration is ascending byte order (IAVL contract)", "address bytes are 20 bytes and distinct per address (stream and whitelist sections)", "EntQ for the purchase-order instance"],
+    },
     "C14": {
         "chain": [chain("all", 24, 25, 300, 40), chain("ent", 16, 25, 200, 40), chain("gov", 16, 25, 200, 40), chain("quorum", 8, 25, 100, 40), chain("stream", 8, 20, 100, 30), chain("authz", 8, 20, 100, 30)],
         "corpus": ["witness", "regress", "known"],
